@@ -847,6 +847,8 @@ void GridFourier::mergeRefinement(){
     int num_all_points = getNumLoaded() + getNumNeeded();
     values.setValues(std::vector<double>(Utils::size_mult(num_outputs, num_all_points), 0.0));
     acceptUpdatedTensors();
+    fourier_coefs = Data2D<double>(num_outputs, 2 * num_all_points); // zero values have zero coefficients (real and imaginary blocks)
+    max_power = MultiIndexManipulations::getMaxIndexes(points); // same bookkeeping as loadNeededValues()
 }
 
 void GridFourier::beginConstruction(){
